@@ -351,6 +351,8 @@ def r3_enumerate(text):
         if re.search(r'(?<![A-Za-z0-9_])continue(?![A-Za-z0-9_])', mask(body)):
             raise ExtractError('R3: loop body contains continue')
         s = 'vx_s%d' % n
+        if re.match(r'^self\.[A-Za-z_][A-Za-z0-9_.]*$', base.strip()):
+            base = '&' + base.strip()     # a field of `&self` is iterated by reference, not moved
         new = ('let %s = %s;\nlet mut %s: usize = 0;\nwhile %s < %s.len() {\nlet %s = &%s[%s];%s\n%s += 1;\n}'
                % (s, base, i_name, i_name, s, x_name, s, i_name, body.rstrip(), i_name))
         text = text[:mo.start()] + new + text[close + 1:]
@@ -402,6 +404,39 @@ def r3m_enumerate_mut(text):
         new = ('let %s: usize = %s;\nlet mut %s: usize = %s;\nwhile %s < %s {\nlet %s = %s;%s\n%s += 1;\n}'
                % (nname, hi, kname, skip or '0', kname, nname, i_name, kname, out.rstrip(), kname))
         text = text[:mo.start()] + new + text[close + 1:]
+        n += 1
+    return text, n
+
+
+def r3f_for_each(text):
+    """`E.for_each(|PAT| BODY);` -> `for PAT in E { BODY }` (definition of Iterator::for_each)"""
+    n = 0
+    while True:
+        m = mask(text)
+        j = m.find('.for_each(')
+        while j >= 0 and 'iter_mut().for_each(' in m[max(0, j - 12):j + 10]:
+            j = m.find('.for_each(', j + 1)    # (R16 handles slice fill)
+        if j < 0:
+            break
+        p = j + len('.for_each(') - 1
+        q = match_close(m, p)
+        inner = text[p + 1:q].strip()
+        mo = re.match(r'\|([^|]*)\|', inner)
+        if not mo:
+            raise ExtractError('R3F: for_each without closure literal')
+        pat = mo.group(1).strip()
+        body = inner[mo.end():].strip()
+        if not body.startswith('{'):
+            body = '{ %s; }' % body
+        a = _receiver_start(m, j)
+        recv = text[a:j]
+        k = q + 1
+        while k < len(m) and m[k].isspace():
+            k += 1
+        if k < len(m) and m[k] == ';':
+            q = k
+        new = 'for %s in %s %s' % (pat, recv, body)
+        text = text[:a] + new + text[q + 1:]
         n += 1
     return text, n
 
@@ -793,6 +828,7 @@ RULES = {
     'R6P': r6p_position,
     'R3V': r3v_for_vec,
     'R11': r11_events_commit,
+    'R3F': r3f_for_each,
     'R3': r3_enumerate,
     'R3M': r3m_enumerate_mut,
     'R4': r4_for_iter,
